@@ -123,7 +123,8 @@ def ym_pool(rng, nrand=6):
 def dt_pool(rng, nrand=6):
     b = [0, 1, -1, 999999, 1000000, -1000000, USECS_PER_DAY - 1, USECS_PER_DAY, USECS_PER_DAY + 1,
          -USECS_PER_DAY + 1, -USECS_PER_DAY, -USECS_PER_DAY - 1, 2 * USECS_PER_DAY, -2 * USECS_PER_DAY,
-         DT_MAX, -DT_MAX, DT_MAX - 1, -DT_MAX + 1, 1 << 53, (1 << 53) + 1, -(1 << 53) - 1, 3652058 * USECS_PER_DAY,
+         DT_MAX, -DT_MAX, DT_MAX - 1, -DT_MAX + 1, 31 * USECS_PER_DAY + 3723000004, 32 * USECS_PER_DAY, 32 * USECS_PER_DAY + 3723000004,
+         -32 * USECS_PER_DAY - 1, 33 * USECS_PER_DAY, 99 * USECS_PER_DAY, 100 * USECS_PER_DAY, 999999999 * 86400, 1 << 53, (1 << 53) + 1, -(1 << 53) - 1, 3652058 * USECS_PER_DAY,
          -3652058 * USECS_PER_DAY, 3652059 * USECS_PER_DAY, 43200000000, -43200000000]
     b += [rng.range(-DT_MAX, DT_MAX) for _ in range(nrand)]
     b += [rng.range(-3 * USECS_PER_DAY, 3 * USECS_PER_DAY) for _ in range(nrand)]
